@@ -469,7 +469,9 @@ func (c *Client) Get(
 		if err := c.logs(ctx, url, filter, bm, start, limit); err != nil {
 			return nil, fmt.Errorf("getting logs: %w", err)
 		}
-	case filter.UseTraces:
+	}
+	// receipts contain the logs but nothing contains the traces
+	if filter.UseTraces {
 		if err := c.traces(ctx, url, bm, start, limit); err != nil {
 			return nil, fmt.Errorf("getting traces: %w", err)
 		}
